@@ -491,12 +491,112 @@ func c05EntryPoints(c *fw.Ctx, kind string, in string) {
 	}
 }
 
+// ---- one compiled program evaluated under changing variable values ("under the same variable values"
+// the value must equal a fresh instance's): histories of evaluation and variable-replacement steps
+
+var c05VarExprs = []string{"a", "a + b", "b - a * c", "a = 1 AND b = 2", "1 + 2", "A", "Max(a, b)", "a IS NULL", "zz"}
+
+var c05VarOps = []string{"Evaluate()", "EvaluateUsingVariables(A)", "EvaluateUsingVariables(B)", "EvaluateUsingVariables(empty)", "EvaluateUsingVariablesAndFunctions(B,default)",
+	"A: remove a, add a=100", "A: a.SetValue(55)", "defaults: remove a, add a=7", "defaults: a.SetValue(9)", "defaults: Clear()"}
+
+type c05VarWorld struct {
+	calc *calculator.ExpressionCalculator
+	a, b variables.IVariableCollection
+}
+
+func c05NewVarWorld(expr string) (*c05VarWorld, error) {
+	w := &c05VarWorld{calc: calculator.NewExpressionCalculator(), a: c05Vars(), b: variables.NewVariableCollection()}
+	w.b.Add(variables.NewVariable("c", variants.VariantFromInteger(30)))
+	w.b.Add(variables.NewVariable("a", variants.VariantFromInteger(10)))
+	w.b.Add(variables.NewVariable("b", variants.VariantFromInteger(20)))
+	return w, w.calc.SetExpression(expr)
+}
+
+// apply runs one step; evaluation steps return the observation, replacement steps return "".
+// evaluate=false skips evaluation steps (used to rebuild the variable values on a fresh instance).
+func (w *c05VarWorld) apply(op int, evaluate bool) string {
+	obs := func(f func() (*variants.Variant, error)) string {
+		if !evaluate {
+			return ""
+		}
+		return safeObs(func() string { v, e := f(); return variantStr(v) + "/" + errStr(e) })
+	}
+	replace := func(vc variables.IVariableCollection, val int) {
+		vc.RemoveByName("a")
+		vc.Add(variables.NewVariable("a", variants.VariantFromInteger(val)))
+	}
+	set := func(vc variables.IVariableCollection, val int) {
+		if v := vc.FindByName("a"); v != nil {
+			v.SetValue(variants.VariantFromInteger(val))
+		}
+	}
+	switch op {
+	case 0:
+		return obs(func() (*variants.Variant, error) { return w.calc.Evaluate() })
+	case 1:
+		return obs(func() (*variants.Variant, error) { return w.calc.EvaluateUsingVariables(w.a) })
+	case 2:
+		return obs(func() (*variants.Variant, error) { return w.calc.EvaluateUsingVariables(w.b) })
+	case 3:
+		return obs(func() (*variants.Variant, error) {
+			return w.calc.EvaluateUsingVariables(variables.NewVariableCollection())
+		})
+	case 4:
+		return obs(func() (*variants.Variant, error) {
+			return w.calc.EvaluateUsingVariablesAndFunctions(w.b, w.calc.DefaultFunctions())
+		})
+	case 5:
+		replace(w.a, 100)
+	case 6:
+		set(w.a, 55)
+	case 7:
+		replace(w.calc.DefaultVariables(), 7)
+	case 8:
+		set(w.calc.DefaultVariables(), 9)
+	case 9:
+		w.calc.DefaultVariables().Clear()
+	}
+	return ""
+}
+
+func c05VarHistory(c *fw.Ctx, expr string, seq []int) {
+	w, err := c05NewVarWorld(expr)
+	if err != nil {
+		c.Outcome("expression-rejected")
+		return
+	}
+	hist := []string{}
+	evals := 0
+	for k, op := range seq {
+		got := w.apply(op, true)
+		if got != "" {
+			// fresh calculator and fresh collections that went through the replacement steps only
+			f, _ := c05NewVarWorld(expr)
+			for _, prev := range seq[:k] {
+				f.apply(prev, false)
+			}
+			want := f.apply(op, true)
+			c.Eval(2)
+			evals++
+			if got != want {
+				c.Violation("value-depends-on-earlier-evaluations:ExpressionCalculator", "calculator for %q after [%s]: %s = %s, a fresh calculator under the same variable values gives %s", expr, strings.Join(hist, "; "), c05VarOps[op], got, want)
+				return
+			}
+		}
+		hist = append(hist, c05VarOps[op])
+	}
+	if evals >= 2 {
+		c.Nontrivial()
+	}
+	c.Outcome(fmt.Sprintf("evaluations=%d", evals))
+}
+
 func init() {
 	fw.Register(&fw.Check{
 		ID:    "C05",
 		Level: "model_checking",
 		Rule: "explicit operation histories on ONE real instance of each of 12 object kinds (4 tokenizers x {no options, parser options}, ExpressionParser, ExpressionCalculator, MustacheParser, MustacheTemplate): every ordered pair (thorough: triple) of inputs from a pool with every registered multi-character symbol alone and next to its siblings, every token class, unterminated literals, malformed programs; " +
-			"after each step the full observation (tokens with positions / compiled program, variable names, error, values under two variable sets / rendering) must equal a freshly constructed instance's; plus every aborted iteration (SetReader, k fetches, abandon) followed by every input, and every pattern in {0,1,2}^m of HasNextToken queries before each fetch; the alternate entry points (ParseTokens / SetOriginalTokens on the instance's own token list, the ...FromExpression / FromTokens / FromString constructors, Clear(), the ...ToStrings tokenizer calls) must give what the main entry point gives on a fresh instance; non-trivial = histories of >=2 steps",
+			"after each step the full observation (tokens with positions / compiled program, variable names, error, values under two variable sets / rendering) must equal a freshly constructed instance's; plus every aborted iteration (SetReader, k fetches, abandon) followed by every input, and every pattern in {0,1,2}^m of HasNextToken queries before each fetch; the alternate entry points (ParseTokens / SetOriginalTokens on the instance's own token list, the ...FromExpression / FromTokens / FromString constructors, Clear(), the ...ToStrings tokenizer calls) must give what the main entry point gives on a fresh instance; one compiled expression under every history of <=3 (thorough 5) steps out of 5 evaluation calls (default variables, two collections, an empty one, explicit functions) and 5 variable replacements (remove+add, SetValue, Clear on a supplied collection and on the defaults), every value compared with a fresh calculator whose variables went through the replacements only; non-trivial = histories of >=2 steps",
 		Assume: []string{"an outcome that is identical on the fresh instance (including a panic) is not a history effect and is left to C03"},
 		Spaces: func(tier string) []fw.Space {
 			objs := c05Objects()
@@ -534,6 +634,22 @@ func init() {
 			sp = append(sp, fw.Space{Name: "entry-points", N: int64(len(eps)),
 				Run:  func(c *fw.Ctx, i int64) { c05EntryPoints(c, eps[i].kind, eps[i].in) },
 				Repr: func(i int64) string { return fmt.Sprintf("alternate entry points, %s input %q", eps[i].kind, eps[i].in) }})
+			vh := 3
+			if tier == "thorough" {
+				vh = 5
+			}
+			nvh := countStrings(len(c05VarOps), vh)
+			sp = append(sp, fw.Space{Name: "same-program-changing-variables", N: nvh * int64(len(c05VarExprs)),
+				Run: func(c *fw.Ctx, i int64) {
+					c05VarHistory(c, c05VarExprs[i/nvh], seqByIndex(len(c05VarOps), i%nvh))
+				},
+				Repr: func(i int64) string {
+					p := []string{}
+					for _, k := range seqByIndex(len(c05VarOps), i%nvh) {
+						p = append(p, c05VarOps[k])
+					}
+					return fmt.Sprintf("one calculator, expression %q compiled once: %s", c05VarExprs[i/nvh], strings.Join(p, "; "))
+				}})
 			parserOpts := optSkipWhitespaces | optSkipComments | optSkipEof | optDecode
 			for _, kind := range tokKinds {
 				kind := kind
